@@ -567,6 +567,7 @@ func init() {
 		in := filepath.Join(dir, "in.srt")
 		ioutil.WriteFile(in, []byte("1\n00:00:01,000 --> 00:00:02,000\nhello\n"), 0644)
 		var args []string
+		outPath := filepath.Join(dir, "out.vtt")
 		for _, t := range a {
 			switch t {
 			case "IN":
@@ -578,7 +579,8 @@ func init() {
 			case "OUT":
 				args = append(args, filepath.Join(dir, "out.vtt"))
 			case "OUTBAD":
-				args = append(args, filepath.Join(dir, "out.xyz"))
+				outPath = filepath.Join(dir, "out.xyz")
+				args = append(args, outPath)
 			case "MISSING":
 				args = append(args, filepath.Join(dir, "missing.srt"))
 			default:
@@ -586,7 +588,8 @@ func init() {
 			}
 		}
 		err := exec.Command(cli, args...).Run()
-		_, serr := os.Stat(filepath.Join(dir, "out.vtt"))
+		// "wrote" = the destination named on the command line exists afterwards (Write creates it first)
+		_, serr := os.Stat(outPath)
 		return fmt.Sprintf("exit-ok=%v wrote=%v", err == nil, serr == nil)
 	}, gen: func(c *ctx) {
 		for _, l := range []string{
@@ -596,6 +599,11 @@ func init() {
 			"unfragment -i IN -o OUT", "optimize -i IN -o OUT", "merge -i IN -i IN2 -o OUT", "merge -i IN -o OUT",
 			"apply-linear-correction -i IN -o OUT -a1 1s -d1 2s -a2 5s -d2 7s", "apply-linear-correction -i IN -o OUT -a1 0s -d1 2s -a2 5s -d2 7s",
 			"apply-linear-correction -i IN -o OUT -a1 1s -d1 2s -a2 5s", "bogus -i IN -o OUT", "-i IN -o OUT",
+			// the whole run (Model/CLIRun): a shift that leaves no cue ends in the nothing-to-write error, one that
+			// clamps the start still writes; the second input is opened only by merge
+			"sync -i IN -o OUT -s -2s", "sync -i IN -o OUT -s -1500ms", "sync -i IN -o OUT -s -3s",
+			"merge -i IN -i MISSING -o OUT", "merge -i MISSING -i IN2 -o OUT", "convert -i IN -i MISSING -o OUT",
+			"bogus -i MISSING -o OUT", "fragment -i IN -i MISSING -o OUT -f 300ms", "unfragment -i IN -o OUTBAD",
 		} {
 			c.do("conv.cli " + l)
 		}
